@@ -90,7 +90,7 @@ pub fn generate(seed: u64, thorough: bool) -> Tree {
     let refs_ext = if has_config && swarm.chance(1, 2) { ".md".to_string() } else { String::new() };
     let odd_names = swarm.chance(1, 2);
     let double_md = swarm.chance(1, 12);
-    let dirs: Vec<&str> = if swarm.chance(1, 3) { vec![""] } else { vec!["", "", "sub", "sub/deep", "with space", "dötted", ".hidden", "x.md"] };
+    let dirs: Vec<&str> = if swarm.chance(1, 3) { vec![""] } else { vec!["", "", "sub", "sub/deep", "with space", "dötted", ".hidden", "x.md", ".iwe"] };
     let plain = ["a", "b", "c", "d", "e", "f", "g", "h", "i", "j", "k", "l", "m", "n", "o"];
     let long_name: String = format!("L{}", "x".repeat(swarm.range(243, 251))); // + ".md" = 247..255 bytes
     let odd: Vec<&str> = vec![
